@@ -92,11 +92,14 @@ static int parse_idx(const char *s, int max) {
 
 static void bad(void) { fprintf(vp_out, "bad-op\n"); }
 
+#define RXLIMIT(it) ((it)->mtu ? (it)->mtu : (it)->bufsize)     /* what recvfrom(sock, buf, MTU) can deliver; MTU 0: the whole buffer */
+
 /* ---------- attribute assignment ---------- */
 static bool set_iface_attr(vp_iface *it, const char *k, const char *v, bool creating) {
     uint64_t u; int64_t i; uint8_t *p; long n;
     if (!strcmp(k, "mtu")) {       /* after creation the MTU may change, up to the size of the receive buffer allocated at creation */
-        if (!parse_u64(v, &u) || u < 64 || u > 65535 || (!creating && u > it->bufsize)) return false;
+        /* 0 after creation: the platform's MTU query SUCCEEDS with 0 (the core falls back to 1500); frames still arrive in the buffer */
+        if (!parse_u64(v, &u) || (u < 64 && !(u == 0 && !creating)) || u > 65535 || (!creating && u > it->bufsize)) return false;
         it->mtu = (size_t)u; return true;
     }
     if (!strcmp(k, "mac")) return parse_fixed(v, it->mac, 6);
@@ -219,7 +222,7 @@ static void nest_fire(void) {
     fprintf(vp_out, "# rx %d ", g_nest.J); vp_hex(vp_out, g_nest.f, (size_t)g_nest.n); if (g_nest.n == 0) fputc('-', vp_out);
     fprintf(vp_out, "%s\n", g_nest.zero ? " zero" : "");
     int J = g_nest.J;
-    if (J < 0 || !vp_ifaces[J].used || (size_t)g_nest.n > vp_ifaces[J].mtu) { bad(); }
+    if (J < 0 || !vp_ifaces[J].used || (size_t)g_nest.n > RXLIMIT(&vp_ifaces[J])) { bad(); }
     else {
         vp_iface *it = &vp_ifaces[J];
         memcpy(it->recvbuf, g_nest.f, (size_t)g_nest.n);
@@ -285,7 +288,7 @@ static void run_line(char *line) {
         if (I < 0 || !vp_ifaces[I].used || nt < base + 1 || (lin && (M < 0 || S < 0 || !g_fsm[M] || !g_fsm[S] || g_fsm_kind[M] != 0 || g_fsm_kind[S] != 1))) { bad(); goto end; }
         uint8_t *f; long n = parse_hex(tok[base], &f);
         vp_iface *it = &vp_ifaces[I];
-        if (n < 0 || (size_t)n > it->mtu) { free(f); bad(); goto end; }
+        if (n < 0 || (size_t)n > RXLIMIT(it)) { free(f); bad(); goto end; }
         bool zero = (nt > base + 1 && !strcmp(tok[base + 1], "zero"));
         memcpy(it->recvbuf, f, (size_t)n);                 /* recvfrom(sock, recvBuffer, MTU) */
         if (zero) memset(it->recvbuf + n, 0, it->bufsize - (size_t)n);
@@ -325,7 +328,7 @@ static void run_line(char *line) {
         memcpy(recs, vp_prev_tx, sizeof(*recs) * n);
         for (unsigned i = 0; i < n; i++) recs[i].data = memcpy(malloc(recs[i].len ? recs[i].len : 1), recs[i].data, recs[i].len);
         for (unsigned i = 0; i < n; i++) {
-            if (recs[i].iface == A && recs[i].len <= it->mtu) {
+            if (recs[i].iface == A && recs[i].len <= RXLIMIT(it)) {
                 memcpy(it->recvbuf, recs[i].data, recs[i].len);
                 if (zero) memset(it->recvbuf + recs[i].len, 0, it->bufsize - recs[i].len);
                 fprintf(vp_out, "deliver %d ", Bi); vp_hex(vp_out, recs[i].data, recs[i].len); fputc('\n', vp_out);
